@@ -84,7 +84,9 @@ HALPHA = [
 
 
 # second history base: both kinds of per-interval parameter, a grid with its own time variables, guesses in between
-HBASE2 = P.case(state="vec2", pg="scalar", pc="both", horizon="fixed", grid="uniform_lT", cons=[P.con("bc0")], obj=["mayer_tf", "integral_pcq"], method="MS", N=2)
+# (the control already has a guess when the history starts: a later guess must survive a still later set_value)
+HBASE2 = P.case(state="vec2", pg="scalar", pc="both", horizon="fixed", grid="uniform_lT", cons=[P.con("bc0")], obj=["mayer_tf", "integral_pcq"], method="MS", N=2,
+                init=[["u", "const", -0.2]])
 HALPHA2 = [
     ["set_value", "pg", "a"], ["set_value", "pg", "b"], ["set_value", "pcq", 0.9], ["set_value", "pc", "B"],
     ["set_initial", "u", "const", 0.3], ["query", "sample"], ["solve"], ["subject_to", P.con("pc_le")],
@@ -120,7 +122,64 @@ def cases(tier):
                             d["cons"] = [P.con("bc0")]; d["obj"] = ["mayer_tf", "integral"] + (["integral_pc"] if pc else [])
                             d["pvals"] = {"pg": 0.45} if pg == "scalar" else {}
                             out.append(dict(kind="plugin_twin", d=d, dev=[meth, ig, pg, str(pc), hz]))
+    # vector-valued per-interval parameters: n rows x one column per interval (also when n equals the number of columns)
+    for meth in ("MS", "SS", "DC"):
+        for n in (2, 3):
+            for N in (2, 3):
+                for il in (False, True):
+                    for when in ("before", "after"):
+                        out.append(dict(kind="pc_vector", method=meth, n=n, N=N, include_last=il, when=when))
     return out
+
+
+def run_pc_vector(case):
+    """column k of the value matrix of a vector-valued per-interval parameter applies on control interval k: read back
+    through sample() at the solver's parameter values, and used by the dynamics (explicit Euler step written out)"""
+    import rockit, casadi as ca, sys
+    meth, n, N, il, when = case["method"], case["n"], case["N"], case["include_last"], case["when"]
+    tags = ["pc_vector", "method=%s" % meth, "n=%d" % n, "N=%d" % N, "include_last=%s" % il, when] + (["square"] if n == N + (1 if il else 0) else [])
+    vios = []
+    cols = N + (1 if il else 0)
+    V = 0.3 + 0.1 * np.arange(n * cols).reshape(n, cols) + 0.05 * np.arange(n).reshape(n, 1) ** 2       # not symmetric
+    V0 = -V[::-1, ::-1] - 0.2
+    c = np.array([1.0, -2.0, 0.5])[:n]
+    try:
+        ocp = rockit.Ocp(t0=0.2, T=1.3)
+        x = ocp.state(); u = ocp.control()
+        p = ocp.parameter(n, grid="control", include_last=il)
+        ocp.set_der(x, ca.dot(ca.DM(c), p) + u)
+        ocp.subject_to(ocp.at_t0(x) == 0.1)
+        ocp.add_objective(ocp.integral(x * x + u * u))
+        ocp.solver("ipopt", {"ipopt.print_level": 0, "print_time": False, "ipopt.sb": "yes"})
+        ocp.method({"MS": lambda: rockit.MultipleShooting(N=N, M=1, intg="expl_euler"), "SS": lambda: rockit.SingleShooting(N=N, M=1, intg="expl_euler"),
+                    "DC": lambda: rockit.DirectCollocation(N=N, M=1, degree=1)}[meth]())
+        if when == "before":
+            ocp.set_value(p, V)
+        else:
+            ocp.set_value(p, V0)
+            ocp.sample(x, grid="control")        # first transcription
+            ocp.set_value(p, V)
+        rb = {"p": ocp.sample(p, grid="control" if il else "control-")[1], "x": ocp.sample(x, grid="control")[1], "u": ocp.sample(u, grid="control-")[1],
+              "t": ocp.sample(x, grid="control")[0]}
+        nlp = NL.Nlp(ocp, rb)
+        w = NL.generic(nlp.nx, 0, 0)
+        q = nlp.read(w)
+        got = np.asarray(q["p"], dtype=float).reshape(n, -1, order="F")
+        if got.shape != V.shape or not NL.close(got, V, 1e-12):
+            vios.append(dict(sig="value:pc-vector:sample", tags=tags, detail="value matrix %s given to a %d-row per-interval parameter; sample() reads %s" % (np.round(V, 3).tolist(), n, np.round(got, 3).tolist())))
+        if meth == "SS" and not vios:
+            # explicit Euler, M=1: x_{k+1} = x_k + h (c . V[:,k] + u_k) is what SingleShooting reports as states
+            xs = np.asarray(q["x"], dtype=float).reshape(-1); us = np.asarray(q["u"], dtype=float).reshape(-1); ts = np.asarray(q["t"], dtype=float).reshape(-1)
+            for k in range(N):
+                want = xs[k] + (ts[k + 1] - ts[k]) * (float(c @ V[:, k]) + us[k])
+                if abs(want - xs[k + 1]) > 1e-10:
+                    vios.append(dict(sig="value:pc-vector:dynamics", tags=tags, detail="interval %d propagates to %g; with column %d of the value matrix it is %g" % (k, xs[k + 1], k, want))); break
+    except Exception as e:
+        fr = core.rockit_frame(sys.exc_info()[2])
+        if fr is None and not isinstance(e, (RuntimeError, AssertionError, AttributeError)):
+            raise
+        vios.append(dict(sig="exception:pc-vector:%s" % (fr or type(e).__name__), tags=tags, detail="%s: %s" % (type(e).__name__, str(e)[:200])))
+    return dict(violations=vios, evaluations=2, traces=1, transitions=2, outcome=explore.sha(case), nontrivial=True, sample=case)
 
 
 def run_plugin_twin(case):
@@ -186,6 +245,8 @@ def run_case(case):
         return _trans.run_trans(case, OWN, extra_check=const_twin)
     if case["kind"] == "plugin_twin":
         return run_plugin_twin(case)
+    if case["kind"] == "pc_vector":
+        return run_pc_vector(case)
     out = hist.run_history(HBASE2 if case.get("base") == 2 else HBASE, case["ops"])
     tags = ["base=2"] if case.get("base") == 2 else []
     seen_tr = False
@@ -201,6 +262,6 @@ def run_case(case):
 
 def describe(tier):
     return dict(
-        rule="(c) plugin integrators (cvodes, collocation) inside MS / SS x parameter kinds x parametric horizons x M: parametric NLP = the NLP of the same OCP with the global / horizon values written in (rows and objective at 3 generic points, 1e-6); (a) deviation-bounded enumeration over parameter kind (global scalar / 2x2 matrix / per-interval / per-interval+include_last / parametric T / parametric t0) x place of use (rhs, bound, objective, initial condition) x value alphabet (two generic values, unit tables per column, unit matrices per element) x method/N/M/grid/degree: all NLP data vs the reference evaluated with the declared values, and vs the same OCP declared on the real code with the values written in as constants; (b2) the same over {set_value of a global, a plain per-interval and (one scalar) an include_last per-interval parameter, a guess of the control, query, solve, subject_to} on a grid with its own time variables; (b) every history of length <= d over {set_value(p,a|b), set_value(q,A|B), set_value(vertcat(p,T),..), query, solve, subject_to, method}: next solve = fresh OCP with the final values (whole parameter vector compared)",
+        rule="(d) vector-valued per-interval parameters (2-3 rows x N / N+1 columns, square tables included) x method x {before, after a first transcription}: sample() reads the value matrix column by column and SingleShooting's Euler recursion uses column k on interval k; (c) plugin integrators (cvodes, collocation) inside MS / SS x parameter kinds x parametric horizons x M: parametric NLP = the NLP of the same OCP with the global / horizon values written in (rows and objective at 3 generic points, 1e-6); (a) deviation-bounded enumeration over parameter kind (global scalar / 2x2 matrix / per-interval / per-interval+include_last / parametric T / parametric t0) x place of use (rhs, bound, objective, initial condition) x value alphabet (two generic values, unit tables per column, unit matrices per element) x method/N/M/grid/degree: all NLP data vs the reference evaluated with the declared values, and vs the same OCP declared on the real code with the values written in as constants; (b2) the same over {set_value of a global, a plain per-interval and (one scalar) an include_last per-interval parameter, a guess of the control, query, solve, subject_to} on a grid with its own time variables; (b) every history of length <= d over {set_value(p,a|b), set_value(q,A|B), set_value(vertcat(p,T),..), query, solve, subject_to, method}: next solve = fresh OCP with the final values (whole parameter vector compared)",
         bound="k<=%d deviations; history depth %d" % ((3, 4) if tier == "thorough" else (2, 3)),
         assumptions=["CasADi Function evaluation and Opti bookkeeping are trusted", "generic-point alphabet", "per-interval parameters have no constant form: they are compared with the reference only"])
